@@ -15,7 +15,9 @@ claimed = {
  'C03': (LOOP + "; the callback protocol is asserted on every path.", NOTE_LOOP),
  'C04': (SYS + "; oracle: stop barrier over begin/return stamps of operations. Plus " + LOOP + " (Stop is a barrier, notifier fires after stopped() and only on graceful ends).", NOTE_SYS),
  'C05': (SYS + "; ghost set of live strong handles; weak upgrades, premature stops and drain-then-stop after the last drop are asserted.", NOTE_SYS),
- 'C07': (LOOP + "; strategy dispatch through the real refresh bodies, callback order, failing started during restart.", NOTE_LOOP),
+ 'C07': (LOOP + "; strategy dispatch through the real refresh bodies, callback order, failing started during restart. Plus " + SYS + " with timers registered in started() on a virtual clock: ticks of a previous incarnation's timers after a restart are violations.", NOTE_SYS),
+ 'C06': (SYS + "; faults: the actor task is cancelled at any scheduler step, a handler panics (unwinding along the MIR cleanup edges), started fails; afterwards every pending and later operation must resolve with an error, nothing is handled, timers stop. Plus loop level: on every failing end the notifier is dropped un-notified and mailbox and context are dropped.", NOTE_SYS + " Children and the service registry are not part of the C06 programs yet."),
+ 'C10': (SYS + "; timers registered by started() run as real MIR (Context::interval/interval_with/delayed_send/delayed_exec, spawn_task, TokioSpawner) against a virtual clock that the scheduler may advance at any step; periods, exactly-once, no delivery after termination, no leaked timer task.", NOTE_SYS + " tokio::spawn / tokio::time::sleep are modelled (task table, virtual clock); durations are small concrete tick counts."),
  'C11': (LOOP + "; timer and handler become ready at arbitrary polls, timeout/fail_on_timeout symbolic.", NOTE_LOOP),
  'C12': (SYS + "; bounded(n) with n symbolic in 0..3: z3 is asked on every schedule whether #(sends returned Ok) - #(taken) can exceed n.", NOTE_SYS),
  'C13': (LOOP + "; item order, completion and finished/stopped protocol of stream-attached actors.", NOTE_LOOP),
